@@ -33,6 +33,9 @@ NotImplementedError_builtin = _builtins.NotImplementedError
 asyncio_TimeoutError = _asyncio.TimeoutError
 
 
+_APP_CLASSES = []
+
+
 class ChainedCause(RuntimeError):
     """raised `from` an OCPP error the handler had caught"""
 
@@ -72,6 +75,20 @@ def body_factory(tier, seed):
             dup = sorted({c for c in codes if codes.count(c) > 1})
             rep.violation("C09:duplicate-code:%s" % dup, "OCPP error classes share the wire code(s) %r" % dup,
                           {"kind": "table-item", "codes": dup, "theorem": "C09_codes_distinct"})
+        # what applications do around the library's errors: their own subclasses (inheriting the wire code), and handlers
+        # that annotate an error they caught before re-raising it -- neither may change what later errors look like
+        global _APP_CLASSES
+        if not _APP_CLASSES:
+            _APP_CLASSES = [type("ConnectorBusy", (ex.GenericError,), {}), type("TokenRevoked", (ex.SecurityError,), {}),
+                            type("Quota", (ex.OccurrenceConstraintViolationError if hasattr(ex, "OccurrenceConstraintViolationError") else ex.InternalError,), {})]
+        for cls0 in classes[:4]:
+            def annotate(kwargs, _c=cls0):
+                try:
+                    raise _c()
+                except ex.OCPPError as e:
+                    e.details["connectorId"] = "STALE-DETAIL"
+                    raise
+            N.run_loopback("1.6", "Heartbeat", call.Heartbeat(), annotate, suppress=False)
         descrs = [None, "", "plain", "dëscr ✓", "x" * 300]
         details = [None, {}, {"cause": "c"}, {"a": [1, 2.5, None, {"b": "ü"}], "n": None}, {"k": {"deep": {"er": []}}}]
         terms, meta = [], []
@@ -83,7 +100,7 @@ def body_factory(tier, seed):
             for suppress in (False, True):
                 def behave(kwargs, _c=cls, _d=d, _x=x):
                     raise _c(description=_d, details=json.loads(json.dumps(_x)) if _x is not None else None)
-                res = N.run_loopback("1.6", "Heartbeat", req, behave, suppress=suppress, handler_async=rng.random() < 0.5)
+                res = N.run_loopback("1.6", "Heartbeat", req, behave, suppress=suppress, handler_async=rng.choice([True, False, "future"]))
                 rep.count(json.dumps([cls.__name__, d, x, suppress], default=repr))
                 replay = {"kind": "error-transport", "class": cls.__name__, "description": d, "details": x, "suppress": suppress,
                           "observation": {k: (v if k != "outcome" else v[:3]) for k, v in res.items() if k != "frames"}}
@@ -112,7 +129,7 @@ def body_factory(tier, seed):
                   chained(ChainedCause), chained(ChainedContext), chained(WrapsOCPP)]
         # every exception type from a coroutine handler and from a plain function handler (the two are awaited /
         # called at different places of _handle_call)
-        for e, h_async in [(e, a) for e in others for a in (True, False)]:
+        for e, h_async in [(e, a) for e in others for a in (True, False, "future")]:
             def behave(kwargs, _e=e):
                 raise _e
             res = N.run_loopback("1.6", "Heartbeat", req, behave, suppress=False, handler_async=h_async)
